@@ -210,7 +210,7 @@ func runC01(c *Ctx, r *Rec) {
 
 	// ---- D4 commit-last
 	checkCommitLast(c, r, info, lst)
-	r.floor("D4-commit-last", 7)
+	r.floor("D4-commit-last", 1)
 	if arrNorm != nil {
 		checkArrayWriteOrder(c, r, info, arr, c.funcOf(arrNorm))
 	}
